@@ -992,7 +992,9 @@ static c_status_t MMUnflattenMessageAux(MMessage * msg, const void * inBuf, uint
                      {
                         itemSize = B_LENDIAN_TO_HOST_INT32(itemSize);
 
-                        if ((WillUnsignedAddOverflow(itemSize, sizeof(uint32)) == false)&&(itemSize+sizeof(uint32) <= eLeft)&&((bufs[j] = MBAllocByteBuffer(itemSize, MFalse)) != NULL))
+                        if ((WillUnsignedAddOverflow(itemSize, sizeof(uint32)) == false)&&(itemSize+sizeof(uint32) <= eLeft)
+                          &&((tc != B_STRING_TYPE)||((itemSize > 0)&&(buffer[eOffset+itemSize-1] == '\0')))  /* a string item must end with its NUL terminator byte, or code reading the string would run past the end of its buffer */
+                          &&((bufs[j] = MBAllocByteBuffer(itemSize, MFalse)) != NULL))
                         {
                            eLeft -= (itemSize + sizeof(uint32));
                            memcpy(&bufs[j]->bytes, &buffer[eOffset], itemSize);
